@@ -265,6 +265,8 @@ func containsAll(have, want []string) bool {
 // textFault classifies how an observed text differs from the expected one.
 func textFault(want, got string) string {
 	switch {
+	case got == want:
+		return "shape" // same text, different number of causes
 	case string(redact.RedactableString(got).StripMarkers()) == want:
 		return "redaction-markers-shown"
 	case strings.HasPrefix(want, "rpc error: code = ") && strings.HasSuffix(want, " desc = "+got):
